@@ -200,10 +200,13 @@ CLAIMS = {
          "diagonal 1, rate x inverse = 1, triangle/path law (C09_inverse_and_path) and independence of quote order and base "
          "(C09_order_base_irrelevant); populated entries (quotes, diagonal) are never rewritten - returned exactly as quoted "
          "for every element type (C09_exact_quotes, C09_seed_holds_quote); count and settlement rejections (C09_rejects, "
-         "C09_rejects_settlement). PARTIAL: success for every tree / failure for every non-tree with the right count is "
-         "covered by the correspondence run (random trees n=2..12, malformed stream) and a model-free oracle, not a theorem.",
+         "C09_rejects_settlement). COMPLETE/REJECT: the triangulation returns a result (within the model's fuel) whenever the "
+         "quoted pairs connect all n currencies (C09_complete: graph argument - a connected incomplete graph has a node "
+         "with two unconnected neighbours, exhausted nodes are cliques, the populated count strictly grows) and never "
+         "returns one when they do not (C09_disconnected_rejected: closed sets stay closed); C09_seed_edges says which "
+         "pairs the seed populates. The graph fact 'n-1 quotes: connected <=> tree' is standard and not restated.",
     design_ref="DESIGN.md §3 C09",
-    note=_corr + "completeness of the triangulation on trees not proved (partial); f64 rounding modelled.",
+    note=_corr + "tree <=> connected for n-1 edges not restated; f64 rounding modelled.",
     technique="Lean 4 proof (loop invariants by induction over the triangulation, field algebra) + differential correspondence + model-free oracle"),
  "C10": dict(
     text="Lean 4 theorems: naming of lifted quotes (C10_naming); refused updates change nothing (C10_refused_update_noop); "
@@ -222,11 +225,13 @@ CLAIMS = {
          "the solution set, explicit zeroing is a genuine row operation, back substitution solves the triangular system); "
          "instantiated for fields (C13_sound_field: pivot != 0) and for Mathlib's dual numbers TrivSqZeroExt ℝ ℝ "
          "(C13_sound_dual_numbers: pivot VALUE != 0, so A x = b holds in value and first derivative); normal equations "
-         "(C13_lsq); row order irrelevant when the solution is unique (C13_row_order_irrelevant). PARTIAL: non-singular => "
-         "all pivot values non-zero, and the per-name refinement of list-based Dual/Dual2 arithmetic to these rings, are "
-         "covered by correspondence only.",
+         "(C13_lsq); row order irrelevant when the solution is unique (C13_row_order_irrelevant). Over an ordered field with "
+         "the code's magnitude pivot rule a system with exactly one solution never meets a zero pivot and the solver "
+         "returns that solution (C13_nonsingular, kernel-vector argument; C13_absGe_real: at ℝ this is the model's own "
+         "comparison). PARTIAL: the per-name refinement of list-based Dual/Dual2 arithmetic to these rings inside the "
+         "solver is covered by correspondence only.",
     design_ref="DESIGN.md §3 C13",
-    note=_corr + "conditioning/rounding not modelled; pivots-exist and Dual->ring refinement not proved (partial).",
+    note=_corr + "conditioning/rounding not modelled; Dual->ring refinement inside the solver not proved (partial).",
     technique="Lean 4 + Mathlib proof (loop invariants over folds, Finset sums, ring algebra) + differential correspondence"),
  "C14": dict(
     text="Lean 4 + Mathlib theorems over ℝ for EVERY order K >= 1 and EVERY non-decreasing knot list with K-fold end knots "
